@@ -24,7 +24,7 @@ C.reexec_under_impl_python()
 import iso_common as I
 
 CID = "C20"
-VO = ["props/C20.vo"] + I.VO_MODEL
+VO = ["props/C20.vo", "iso/IsoGenCor.vo"] + I.VO_MODEL
 MAXV = 25
 
 ALPHA = [ord(c) for c in "0123456789-:.,+TtWZz_ \tax/\n"] + [0xE9, 0xFF11, 0x663, 0x0]
@@ -395,8 +395,10 @@ def main():
     except C.BuildError as ex:
         build_err = ex
     if build_err is not None:
-        props = {"obligations": 1, "discharged": 0, "theorems": [], "assumptions": {},
-                 "cmd": "coqc props/C20.v", "log": build_err.log, "ok": False}
+        # translator abort (harness/gen_*.py is fail-closed) or forbidden construct: nothing was re-checked
+        names = I.theorem_names(CID)
+        props = {"obligations": len(names), "discharged": 0, "theorems": names, "assumptions": {},
+                 "cmd": "coqc props/C20.v", "log": "%s\n%s" % (build_err.what, build_err.log), "ok": False}
     else:
         props = C.compile_props(CID)
     have_oracle = os.path.exists(os.path.join(C.BIN, "oracle_" + I.AREA))
@@ -447,7 +449,7 @@ def main():
         for p in sorted(tot["soft"], key=lambda p: len(_codes(p)))[:3]:
             verdict.violation(p, concrete=False)
     if not props["ok"] and not verdict.violations:
-        verdict.violation({"kind": "broken proof obligation", "theorem_file": "coq/props/C20.v",
+        verdict.violation({"kind": I.broken_kind(build_err, props), "theorem_file": "coq/props/C20.v",
                            "theorems": props["theorems"], "discharged": props["discharged"], "input": None,
                            "log_tail": props["log"][-3000:]}, concrete=False)
     rc = verdict.finish()
@@ -484,6 +486,7 @@ def main():
         "regression_corpus_cases": n_reg,
         "anchor_coverage_of_deterministic_streams": cov_summary,
         "partial_theorems": partial,
+        "model_tie": I.model_tie(build_err, props),
         "only_differential_tested": ["str / bytes / stream glue of _takes_ascii (identity in the model)",
                                      "TypeError for non-text, non-bytes inputs is outside the property"],
         "known_findings_hit": verdict.known_hits,
@@ -493,7 +496,7 @@ def main():
                       "ord_of_ymd / ymd_of_ord (coq/base/Cal.v), not verified",
                       "bytes.isdigit / int(bytes) on ASCII digits modelled by is_digit / int_acc",
                       "regex [\\.,]([0-9]+) modelled by frac_match/span_digits",
-                      "hand-written model coq/iso/IsoModel.v tied to isoparser.py by this differential run"],
+                      "model <-> source: harness/gen_iso.py (fail-closed ast translator, accepted subset in its docstring / notes/iso.md) regenerates coq/gen/IsoGen.v from isoparser.py on every run and IsoGenThm.v proves gen_f = model_f; trusted: the translator, coq/iso/IsoGenLib.v, the AST-hash pins of _takes_ascii / __init__; the differential run ties the running bytecode and the glue"],
                      len(verdict.violations))
     print("C20 %s: obligations %d/%d, %d evaluations (%d distinct non-trivial, %d accepted), misread %d, "
           "non-ValueError %d, model-diff %d, spec-diff %d, %.1fs" % (
